@@ -42,11 +42,17 @@ func (m *XModel) Ingest(fi int, f FlowDef, r Rec) {
 	if f.NeedsCorrelation() && (r.Side == "D" || r.Side == "N" || r.Side == "B") {
 		side = r.Side
 	}
+	// a record whose node saw the flow denied at egress or rejected at ingress makes the flow ready at
+	// once, whether it is the first record of the flow or finds the other node's record waiting
+	needs := f.RecordNeedsCorrelation(side)
 	if x == nil {
-		m.Flows[fi] = &XFlow{Active: m.Now + m.A, Inactive: m.Now + m.I, Ready: !f.NeedsCorrelation(), FirstSide: side, Sides: map[string]bool{side: true}}
+		m.Flows[fi] = &XFlow{Active: m.Now + m.A, Inactive: m.Now + m.I, Ready: !needs, FirstSide: side, Sides: map[string]bool{side: true}}
 		return
 	}
 	x.Inactive = m.Now + m.I
+	if !needs {
+		x.Ready = true
+	}
 	// two records are from the same node when both are source-node records or both are
 	// destination-node records; a record that names neither Pod, or both, is from the same node as
 	// nothing, itself included
